@@ -87,6 +87,9 @@ def _run_extract(cfg, out_dir, target_dir, log):
         "RUSTFLAGS": "-Zmir-opt-level=0 -Awarnings",
         "RUSTC_WORKSPACE_WRAPPER": DRIVER_BIN,
         "CARGO_TARGET_DIR": target_dir,
+        # incremental state changes which MIR bodies are already stolen when the driver runs: keep it off so that
+        # the facts are a function of the sources alone
+        "CARGO_INCREMENTAL": "0",
     })
     env.pop("RUSTC_WRAPPER", None)
     # cargo's freshness cache would skip the wrapper for unchanged members: force them.
